@@ -56,6 +56,8 @@ static NS void g_recv(long id, int strict_order) {
   recv_done++;
   sim_progress();
 }
+static int try_mode;
+static NS void g_try_failed(void) { recv_begun--; } /* a try that found nothing has taken nothing */
 static NS int g_sw(void) { return sim_fiber_switch_ins(sim_current_fiber()); }
 static NS void g_blocked(int before) {
   if (sim_fiber_switch_ins(sim_current_fiber()) != before && !blocked_seen) {
@@ -129,6 +131,35 @@ static void* receiver(void* p) {
     if (pre_fd_wait && r == 0 && i < 2) fd_wait_once();
     g_recv_begin();
     int sw = g_sw();
+    if (try_mode) {
+      /* the non-blocking receive calls, polled with a yield in between: same messages, same order */
+      void* got = NULL;
+      for (;;) {
+        if (kind == K_BOUNDED_SIG || kind == K_BOUNDED_SPIN) {
+          if (fiber_bounded_channel_try_receive(bch, &got)) break;
+        } else if (kind == K_UNBOUNDED) {
+          fiber_unbounded_channel_message_t* m = fiber_unbounded_channel_try_receive(&uch);
+          if (m) {
+            got = m->data;
+            free(m);
+            break;
+          }
+        } else {
+          fiber_unbounded_sp_channel_message_t* m = fiber_unbounded_sp_channel_try_receive(&spch);
+          if (m) {
+            got = m->data;
+            free(m);
+            break;
+          }
+        }
+        g_try_failed();
+        RS0(fiber_yield);
+        g_recv_begin();
+      }
+      g_recv((long)got, nrecv == 1);
+      if (yield_r) RS0(fiber_yield);
+      continue;
+    }
     switch (kind) {
       case K_BOUNDED_SIG:
       case K_BOUNDED_SPIN:
@@ -203,6 +234,7 @@ void h_run(void) {
   yield_s = wl_pct(40);
   yield_r = wl_pct(40);
   pre_fd_wait = wl_pct(20);
+  try_mode = (kind == K_BOUNDED_SIG || kind == K_BOUNDED_SPIN || kind == K_UNBOUNDED || kind == K_UNBOUNDED_SP) && wl_pct(25);
   total = 0;
   const int maxmsg = sim_tier_thorough() ? MAXMSG : 5;
   for (int s = 0; s < nsend; s++) {
@@ -215,7 +247,7 @@ void h_run(void) {
     left -= rquota[r];
   }
   static const char* const kn[] = {"bounded+signal", "bounded(spin)", "unbounded", "unbounded-sp", "multi", "raw-signal"};
-  sim_describe("threads=%d %s senders=%d receivers=%d capacity=%d messages=%d yield_s=%d yield_r=%d fd_wait_first=%d preempt=1/%d", c.threads, kn[kind], nsend, nrecv, cap, total, yield_s, yield_r, pre_fd_wait, c.preempt_inv);
+  sim_describe("threads=%d %s senders=%d receivers=%d capacity=%d messages=%d yield_s=%d yield_r=%d fd_wait_first=%d try_receive=%d preempt=1/%d", c.threads, kn[kind], nsend, nrecv, cap, total, yield_s, yield_r, pre_fd_wait, try_mode, c.preempt_inv);
   sim_fiber_mode();
   fiber_manager_init(c.threads);
   sig_p = h_dirty_alloc(sizeof *sig_p);
@@ -263,5 +295,18 @@ void h_run(void) {
       for (int q = 0; q < per[s]; q++)
         if (!received[s][q]) sim_violation("C11-lost-message", "message %d of sender %d never received", q, s);
   }
+  /* teardown: everything was received, the channels and the signal go away */
+  switch (kind) {
+    case K_BOUNDED_SIG:
+    case K_BOUNDED_SPIN: fiber_bounded_channel_destroy(bch); break;
+    case K_UNBOUNDED: fiber_unbounded_channel_destroy(&uch); break;
+    case K_UNBOUNDED_SP: fiber_unbounded_sp_channel_destroy(&spch); break;
+    case K_MULTI: fiber_multi_channel_destroy(mch); break;
+    default: break;
+  }
+  fiber_signal_destroy(&sig);
+  free(uch_p);
+  free(spch_p);
+  free(sig_p);
   h_fiber_end();
 }
